@@ -1,4 +1,5 @@
-SPECIFICATION Spec
+SPECIFICATION LSpec
 CONSTANTS HThreads <- T  Items <- I  Scenarios <- Scn  MaxWorkers = 2
 INVARIANTS RanAtMostOnce RanOnlyIfStarted RunsOnWorker DoneOnlyIfStopRequested NoItemLost AllThreadsJoined ExitedQueueEmptyOrLate MutexSane
+VIEW LView
 CHECK_DEADLOCK TRUE
